@@ -723,6 +723,13 @@ def random_real_walk(tid, rng, prop, steps=60):
             budget["SrvErr"] -= 1
         run.apply(a, spec_act=world_to_spec(run, a))
     drained = run.drain()
+    # a lazy application finally asks for everything that has been waiting for it (one request stays outstanding)
+    for c in ("A", "B"):
+        cl = w.clients[c]
+        if cl.lazy and not any(k == "closed" for k, _ in cl.events):
+            other = w.clients["B" if c == "A" else "A"]
+            for _ in range(len(other.sent) + 1):
+                run.apply({"a": "AppGet", "c": c, "kind": "message"})
     if prop in ("C18", "C08") :
         # after everything: get_*() issued after the closed notification must fail, not hang
         for c in ("A", "B"):
@@ -824,6 +831,73 @@ def run_trace_validation(wd, lines, ntraces):
     for v in tlc.printed_tuples(r.stdout, "TRACE"):
         out[v[1]] = (v[2], v[3])
     return out, r
+
+
+def binding_demo():
+    """The trace specification is bound to the code: real traces are accepted as recorded, and rejected as soon as
+    one recorded field is altered, one step is dropped, or two steps change places."""
+    import copy
+    rng = random.Random(7)
+    out = {}
+    with common.Workdir("selftest") as wd:
+        wd.gen_tables()
+        traces = []
+        tid = 0
+        while len(traces) < 6:
+            tid += 1
+            run_, goal, drained = random_real_walk(tid, rng, "C09", steps=40)
+            lazy = any(c.lazy for c in run_.world.clients.values())
+            run_.finish(drained, goal=goal)
+            if len(run_.lines) >= 15 and not lazy:
+                traces.append(run_.lines)
+        variants = []        # (name, lines)
+        n = 0
+        for lines in traces:
+            def retag(ls, t):
+                ls = copy.deepcopy(ls)
+                for i, l in enumerate(ls):
+                    l["tid"], l["i"] = t, i + 1
+                return ls
+            n += 1
+            variants.append(("original", retag(lines, n)))
+            # one machine state of one client at one step
+            k = rng.randrange(3, len(lines) - 1)
+            c = rng.choice(["A", "B"])
+            bad = retag(lines, n + 100)
+            st = bad[k]["proj"][c]["st"]
+            m = sorted(st)[rng.randrange(len(st))]
+            st[m] = "S_bogus" if not isinstance(st[m], str) or not st[m].startswith("S_bogus") else "X"
+            variants.append(("state_altered", bad))
+            # one application event dropped from the record
+            bad = retag(lines, n + 200)
+            hit = [i for i, l in enumerate(bad) if any(l["proj"][x]["ev"] for x in ("A", "B"))]
+            if hit:
+                for l in bad[hit[-1]:]:
+                    for x in ("A", "B"):
+                        if l["proj"][x]["ev"]:
+                            l["proj"][x]["ev"] = l["proj"][x]["ev"][:-1]
+                            break
+                    else:
+                        continue
+                variants.append(("event_removed", bad))
+            # one step missing
+            bad = retag(lines[:k] + lines[k + 1:], n + 300)
+            variants.append(("step_removed", bad))
+            # the frame counters of one step
+            bad = retag(lines, n + 400)
+            bad[k]["proj"][c]["c2s"] += 1
+            variants.append(("queue_length_altered", bad))
+        allv = [l for _, ls in variants for l in ls]
+        tv, r = run_trace_validation(wd, allv, len(variants))
+        for name, ls in variants:
+            t = ls[0]["tid"]
+            reached, total = tv.get(t, (0, len(ls)))
+            out.setdefault(name, {"accepted": 0, "rejected": 0})["accepted" if reached == total else "rejected"] += 1
+    ok = out.get("original", {}).get("rejected", 1) == 0 and all(v["accepted"] == 0 for k_, v in out.items() if k_ != "original")
+    # (removing a step may leave a behaviour the specification also allows: reported, not required to be rejected)
+    ok = out.get("original", {}).get("rejected", 1) == 0 and all(
+        out.get(k_, {"accepted": 0})["accepted"] == 0 for k_ in ("state_altered", "event_removed", "queue_length_altered"))
+    return ok, out
 
 
 def run(prop, tier):
